@@ -185,6 +185,21 @@ func runC04(seed int64, n int, dir string, tier string) *Report {
 			}
 		}
 	}
+	// text that is not JSON reaches the line-based part of format detection: every truncation of tag-value
+	// headers (a file cut short inside its version line is an ordinary damaged input)
+	for _, text := range []string{"SPDXVersion: SPDX-2.3\nDataLicense: CC0-1.0\nSPDXID: SPDXRef-DOCUMENT\n", "# comment\r\nSPDXVersion: SPDX-2.2\r\nDataLicense: CC0-1.0\r\n", "SPDXVersion:SPDX-2.3"} {
+		for k := 0; k <= len(text); k++ {
+			for _, tail := range []string{"", "\n", "\r\n"} {
+				data := []byte(text[:k] + tail)
+				po := parseOnce(data, "")
+				rep.OracleEvals++
+				rep.Count("tag-value-prefix:" + po.kind)
+				if po.kind == "panic" || po.kind == "hang" || po.kind == "both" || po.kind == "neither" || po.kind == "bad-doc" {
+					rep.Fail(Failure{What: "a parser misbehaved on a truncated tag-value text: " + po.kind, Detail: po.err, Input: map[string]any{"input": string(data)}})
+				}
+			}
+		}
+	}
 	runScaleProbes(rep)
 	rep.Notes = append(rep.Notes, fmt.Sprintf("slowest single parse: %v", worst))
 	rep.CasesFiles = cf.Write(filepath.Join(dir, "cases_C04"))
